@@ -133,12 +133,12 @@ def run(rep, tier, seed):
 
 def at_the_limits(rep, tier):
     """programs that sit exactly on, just under and just over the limits of the instruction format (C14's scenarios:
-    locals, call arguments, captured variables, constants, jump distances): whatever the front end decides, nothing
-    crashes"""
+    locals, call arguments, captured variables): whatever the front end decides, nothing crashes"""
     from .c14 import limit_scenarios
-    scs = limit_scenarios(tier)
+    # (the big-program scenarios - constant pool, jump distances, globals - stay with C14: they take minutes)
+    scs = [sc for sc in limit_scenarios(tier) if sc[0].split("=")[0] in ("locals", "call-args", "captured", "captured-direct")]
     cases = [{"id": "lim%d" % k, "src": sc[4], "fuel": 20000000} for k, sc in enumerate(scs)]
-    res = core.run_cases(cases, deadline_ms=60000)
+    res = core.run_cases(cases, deadline_ms=60000, shards=4)
     for c, sc in zip(cases, scs):
         out = core.norm_out(res[c["id"]])
         rep.cov["evaluations"] += 1
